@@ -87,5 +87,102 @@ def main():
         print(path, t.n, 'rewrites')
 
 
+
+
+# --- more modes (appended) ---------------------------------------------------
+class MethKw(ast.NodeTransformer):
+    """positional arguments of calls of Table methods on self / table-named
+    receivers -> keyword arguments (names from the method's signature)."""
+    n = 0
+
+    def __init__(self, sigs):
+        self.sigs = sigs
+
+    def visit_Call(self, node):
+        self.generic_visit(node)
+        f = node.func
+        if isinstance(f, ast.Attribute) and isinstance(f.value, ast.Name) \
+                and f.value.id in ('self', 'table', 't', 'other', 'tab',
+                                   'result', 'tmp_table') and \
+                f.attr in self.sigs and node.args and not any(
+                isinstance(a, ast.Starred) for a in node.args):
+            params = self.sigs[f.attr]
+            if params is None or len(node.args) > len(params):
+                return node
+            have = {k.arg for k in node.keywords}
+            names = params[:len(node.args)]
+            if set(names) & have or any(k.arg is None
+                                        for k in node.keywords):
+                return node
+            # keep the first argument positional when it is the only one
+            # (callbacks etc. read better) - convert from the second on
+            keep = 1 if len(node.args) > 1 else 0
+            if len(node.args) == 1 and names[0] == 'axis':
+                keep = 0
+            new_kw = [ast.keyword(arg=n_, value=v)
+                      for n_, v in zip(names[keep:], node.args[keep:])]
+            if new_kw:
+                node.args = node.args[:keep]
+                node.keywords = new_kw + node.keywords
+                self.n += 1
+        return node
+
+
+class SwapBranches(ast.NodeTransformer):
+    """`if c: A else: B` -> `if not c: B else: A` for plain if/else (no
+    elif); `not (not c)` is not produced: a leading `not` is dropped."""
+    n = 0
+
+    def visit_If(self, node):
+        self.generic_visit(node)
+        if node.orelse and not (len(node.orelse) == 1 and isinstance(
+                node.orelse[0], ast.If)):
+            t = node.test
+            if isinstance(t, ast.UnaryOp) and isinstance(t.op, ast.Not):
+                nt = t.operand
+            else:
+                nt = ast.UnaryOp(op=ast.Not(), operand=t)
+            self.n += 1
+            return ast.If(test=nt, body=node.orelse, orelse=node.body)
+        return node
+
+
+def table_sigs(path):
+    tree = ast.parse(open(path).read())
+    sigs = {}
+    for c in tree.body:
+        if isinstance(c, ast.ClassDef) and c.name == 'Table':
+            for m in c.body:
+                if isinstance(m, ast.FunctionDef):
+                    a = m.args
+                    if a.vararg or a.posonlyargs:
+                        sigs[m.name] = None
+                        continue
+                    ps = [x.arg for x in a.args]
+                    if ps and ps[0] in ('self', 'cls'):
+                        ps = ps[1:]
+                    sigs[m.name] = ps
+    return sigs
+
+
+def main2():
+    mode = sys.argv[1]
+    if mode == 'methkw':
+        sigs = table_sigs([p for p in sys.argv[2:]
+                           if p.endswith('table.py')][0])
+        make = lambda: MethKw(sigs)
+    elif mode == 'swap':
+        make = SwapBranches
+    else:
+        return main()
+    for path in sys.argv[2:]:
+        tree = ast.parse(open(path).read())
+        t = make()
+        tree = t.visit(tree)
+        ast.fix_missing_locations(tree)
+        open(path, 'w').write(ast.unparse(tree) + '\n')
+        print(path, t.n, 'rewrites')
+
+
 if __name__ == '__main__':
-    main()
+    main2()
